@@ -265,6 +265,9 @@ func TestVxNativeReplay(t *testing.T) {
 	}()
 	vx.Reset()
 	%s()
+	for _, n := range vx.Notes {
+		t.Logf("VXNOTE: %%s", n)
+	}
 	for _, f := range vx.Failures {
 		t.Errorf("VXVIOLATED: %%s", f)
 	}
